@@ -26,6 +26,7 @@ type verifDCS struct {
 	order []string // creation order (children are listed in this order)
 
 	Connected   bool // answer of IsConnected
+	Down        bool // outage: every operation fails (no budget, no event), locks are refused
 	LockMode    int  // 0: always true; 1: symbolic per call; 2: always false
 	LockAnswers []bool
 	FaultBudget int // failing operations left
@@ -36,6 +37,11 @@ type verifDCS struct {
 	// Checkpoint is called after every mutating operation.
 	Checkpoint func(op, path string)
 	Before     func(op, path string)
+	// Lazy (optional) is called at the start of every operation with the normalised
+	// path, before Before/fault injection: a harness may seed the node on first access
+	// (arbitrary pre-state drawn only on the paths that look at it).
+	Lazy     func(path string)
+	Released int // ReleaseLock calls
 }
 
 func newVerifDCS() *verifDCS {
@@ -64,6 +70,9 @@ func verifParent(p string) string {
 func (d *verifDCS) has(p string) bool { _, ok := d.nodes[p]; return ok }
 
 func (d *verifDCS) fault(op, p string, mutating bool) bool {
+	if d.Down {
+		return true
+	}
 	if d.FaultBudget <= 0 || (mutating && d.FaultOnReadsOnly) {
 		return false
 	}
@@ -146,6 +155,11 @@ func (d *verifDCS) Close()                                   {}
 
 func (d *verifDCS) AcquireLock(path string) bool {
 	r := true
+	if d.Down {
+		d.LockAnswers = append(d.LockAnswers, false)
+		verifnd.Event("lock refused")
+		return false
+	}
 	switch d.LockMode {
 	case 1:
 		r = verifnd.Choose("lock.acquire", 2) == 0 // decided per call (callers branch on it immediately)
@@ -161,10 +175,17 @@ func (d *verifDCS) AcquireLock(path string) bool {
 	return r
 }
 
-func (d *verifDCS) ReleaseLock(path string) { verifnd.Event("lock released") }
+func (d *verifDCS) ReleaseLock(path string) { d.Released++; verifnd.Event("lock released") }
+
+func (d *verifDCS) lazy(p string) {
+	if d.Lazy != nil {
+		d.Lazy(p)
+	}
+}
 
 func (d *verifDCS) create(path string, val any, eph bool) error {
 	p := verifNorm(path)
+	d.lazy(p)
 	if d.Before != nil {
 		d.Before("create", p)
 	}
@@ -197,6 +218,7 @@ func (d *verifDCS) CreateEphemeral(path string, val any) error { return d.create
 
 func (d *verifDCS) set(path string, val any, eph bool) error {
 	p := verifNorm(path)
+	d.lazy(p)
 	if d.Before != nil {
 		d.Before("set", p)
 	}
@@ -229,6 +251,7 @@ func (d *verifDCS) SetEphemeral(path string, val any) error { return d.set(path,
 
 func (d *verifDCS) Delete(path string) error {
 	p := verifNorm(path)
+	d.lazy(p)
 	if d.Before != nil {
 		d.Before("delete", p)
 	}
@@ -257,6 +280,7 @@ func (d *verifDCS) Delete(path string) error {
 
 func (d *verifDCS) GetChildren(path string) ([]string, error) {
 	p := verifNorm(path)
+	d.lazy(p)
 	if d.fault("children", p, false) {
 		return nil, ErrVerifDCS
 	}
@@ -280,6 +304,7 @@ func (d *verifDCS) GetTree(path string) (any, error) { return nil, errors.New("G
 
 func (d *verifDCS) Get(path string, dest any) error {
 	p := verifNorm(path)
+	d.lazy(p)
 	if d.fault("get", p, false) {
 		return ErrVerifDCS
 	}
@@ -374,6 +399,23 @@ func (d *verifDCS) seed(path string, v any) {
 		d.put(chain[i], struct{}{}, false)
 	}
 	d.put(p, verifStore(v), false)
+}
+
+// unseed removes a node (and nothing else) behind the back of the code under test:
+// an action of another process or of the operator.
+func (d *verifDCS) unseed(path string) {
+	p := verifNorm(path)
+	if !d.has(p) {
+		return
+	}
+	delete(d.nodes, p)
+	delete(d.eph, p)
+	for i, q := range d.order {
+		if q == p {
+			d.order = append(d.order[:i:i], d.order[i+1:]...)
+			break
+		}
+	}
 }
 
 func (d *verifDCS) peek(path string) (any, bool) {
